@@ -1,9 +1,108 @@
 import SonicSpec.Model.Str
+import SonicSpec.Model.StrSpec
+/-
+  Driver for core B (strings): protocol lines of property C20.
+  Lines with a trailing extra field carry the implementation's output; the model then also decides the
+  relation the property states ("a literal that decodes back to the input").
+-/
 namespace SonicSpec.Driver.Str
 open SonicSpec SonicSpec.Str
 
+def errName : UErr → String
+  | .eof => "EOF"
+  | .escape => "INVALID_ESCAPE"
+  | .inval => "INVALID_CHAR"
+  | .unicode => "INVALID_UNICODE"
+
+def showRes : Except UErr Bytes → String
+  | .ok b => "ok:" ++ hexArg b
+  | .error e => "err:" ++ errName e
+
+def showOpt : Option Bytes → String
+  | some b => "ok:" ++ hexArg b
+  | none => "err"
+
+def b01 (b : Bool) : String := if b then "1" else "0"
+
+def isOk (r : Except UErr Bytes) (want : Bytes) : Bool :=
+  match r with
+  | .ok b => b == want
+  | .error _ => false
+
+/-- strip `pre` in front and `suf` behind -/
+def strip (pre suf : Bytes) (s : Bytes) : Option Bytes :=
+  if pre.isPrefixOf s && suf.isSuffixOf s && pre.length + suf.length ≤ s.length then
+    some ((s.drop pre.length).take (s.length - pre.length - suf.length))
+  else none
+
+/-- relation "out is a string literal whose decoding is `want`" (decoding as encoding/json does:
+    lone surrogates replaced).  For the `,string` form the literal has to denote another literal, which
+    denotes `want` (two passes, the definition - not sonic's one-pass routine). -/
+def litDecodes (dbl : Bool) (out want : Bytes) : Bool × Bool :=
+  match strip [34] [34] out with
+  | none => (false, false)
+  | some body =>
+    if !litBodyOk body then (false, false)
+    else if dbl then
+      match unquote true false body with
+      | .error _ => (true, false)
+      | .ok o1 =>
+        match strip [34] [34] o1 with
+        | none => (true, false)
+        | some inner => (true, litBodyOk inner && isOk (unquote true false inner) want)
+    else (true, isOk (unquote true false body) want)
+
+def cfgHtml (cfg : String) : Bool := cfg == "s" || cfg == "h"
+def cfgValid (cfg : String) : Bool := cfg == "s" || cfg == "v"
+
+def marshalLit (shape cfg : String) (s : Bytes) : Bytes :=
+  let lit := if shape == "fs" then quoteD s else quote s
+  if shape == "a" then lit else encodeFinish (cfgHtml cfg) (cfgValid cfg) lit
+
+/-- what the literal produced under `cfg` has to denote -/
+def marshalWant (shape cfg : String) (s : Bytes) : Bytes :=
+  if shape != "a" && cfgValid cfg then correctWith fffd s else s
+
+def natArg (s : String) : Nat := s.toNat?.getD 0
+
 def handle : List String → Option String
   | ["quote", h] => (unhexArg h).map fun b => s!"model={hexArg (quote b)}"
+  | ["quote", h, o] => do
+    let b ← unhexArg h
+    let out ← unhexArg o
+    let (lit, rt) := litDecodes false out b
+    -- the restartable loop with a destination that fills up early must give the same bytes
+    let lp := quoteLoop quoteByte [b.length + 1, 7] [34] b ++ [34]
+    some s!"model={hexArg (quote b)}\tlit={b01 lit}\trt={b01 rt}\tloop={b01 (lp == quote b)}"
+  | ["unq", h] => (unhexArg h).map fun b => s!"model={showRes (unquote true false b)}"
+  | ["unqx", fl, h] => (unhexArg h).map fun b =>
+      s!"model={showRes (unquote (fl.contains 'r') (fl.contains 'd') b)}"
+  | ["html", extra, d, s] => do
+    let dst ← unhexArg d
+    let src ← unhexArg s
+    let m := dst ++ htmlEscape src
+    let lp := htmlLoop [natArg extra, 5, 64] dst src
+    some s!"model={hexArg m}\tloop={b01 (lp == m)}"
+  | ["utf8v", h] => (unhexArg h).map fun b => s!"model={b01 (validate b)}"
+  | ["utf8c", r, d, s] => do
+    let repl ← unhexArg r
+    let dst ← unhexArg d
+    let src ← unhexArg s
+    let m := dst ++ correctWith repl src
+    let ch := dst ++ correctChunked repl 4096 (src.length + 1) src
+    some s!"model={hexArg m}\tchunk={b01 (ch == m)}"
+  | ["mstr", shape, cfg, h] => (unhexArg h).map fun b => s!"model={hexArg (marshalLit shape cfg b)}"
+  | ["mstr", shape, cfg, h, o] => do
+    let b ← unhexArg h
+    let out ← unhexArg o
+    let (lit, rt) := litDecodes (shape == "fs") out (marshalWant shape cfg b)
+    some s!"model={hexArg (marshalLit shape cfg b)}\tlit={b01 lit}\trt={b01 rt}"
+  | ["ustr", shape, cfg, h] => (unhexArg h).map fun b =>
+      let m := s!"model={showOpt (decodeString (cfg == "s") (cfg == "u") (shape == "fs") b)}"
+      -- the two-pass definition of double unquoting, and the result if the no-replace option were ignored
+      let two := if shape == "fs" then s!"\ttwo={showOpt (decodeStringTwice (cfg == "s") (cfg == "u") b)}" else ""
+      let alt := if cfg == "u" then s!"\talt={showOpt (decodeString false false (shape == "fs") b)}" else ""
+      m ++ two ++ alt
   | _ => none
 
 end SonicSpec.Driver.Str
